@@ -49,9 +49,10 @@ def canon_val(v):
             out.append("F" if v.flags["F_CONTIGUOUS"] else "S")
         return out
     if isinstance(v, (int, np.integer)):
-        return ["int", int(v)]
+        # a 3rd element "np" records that the in-memory object is a NumPy scalar (never compared)
+        return ["int", int(v)] + (["np"] if isinstance(v, np.integer) else [])
     if isinstance(v, float):  # np.float64 is a float
-        return ["float", struct.pack("<d", v).hex()]
+        return ["float", struct.pack("<d", v).hex()] + (["np"] if isinstance(v, np.floating) else [])
     if v is None:
         return ["none"]
     if isinstance(v, str):
@@ -112,7 +113,8 @@ def norm_cell(c, ordered):
     f0 = (lambda x: x) if ordered else _unordered
 
     def f(items):
-        return f0([[k, (v[:4] if v and v[0] == "arr" else v)] for k, v in items])
+        return f0([[k, (v[:4] if v and v[0] == "arr" else v[:2] if v and v[0] in ("int", "float") else v)]
+                   for k, v in items])
 
     m = dict(c["meta"])
     m["details"] = f(m["details"])
@@ -147,9 +149,10 @@ def first_diff(a, b, ordered=False):
 def mk_val(v):
     t = v[0]
     if t == "int":
-        return int(v[1])
+        return np.int64(v[1]) if len(v) > 2 else int(v[1])
     if t == "float":
-        return struct.unpack("<d", bytes.fromhex(v[1]))[0]
+        f = struct.unpack("<d", bytes.fromhex(v[1]))[0]
+        return np.float64(f) if len(v) > 2 else f
     if t == "bool":
         return bool(v[1])
     if t == "none":
@@ -184,21 +187,39 @@ def mk_meta(m):
     )
 
 
-def mk_cells(wt):
+class _NoonDate(datetime.datetime):
+    """A datetime subclass with a non-midnight time (family D)."""
+
+
+def _coord(ymd, coords, i=0):
+    if coords == "date":
+        return datetime.date(*ymd)
+    kinds = ["datetime", "timestamp", "subclass"] if coords == "mixed" else [coords]
+    k = kinds[i % len(kinds)]
+    if k == "timestamp" and 1678 <= ymd[0] <= 2261:
+        import pandas as pd
+
+        return pd.Timestamp(year=ymd[0], month=ymd[1], day=ymd[2], hour=13, minute=45)
+    if k == "subclass":
+        return _NoonDate(ymd[0], ymd[1], ymd[2], 12, 0, 1)
+    return datetime.datetime(ymd[0], ymd[1], ymd[2], 23, 59, 59)
+
+
+def mk_cells(wt, coords="date"):
     from bermuda import Cell, CumulativeCell, IncrementalCell
 
     cache = {}
     out = []
-    for c in wt:
+    for ci, c in enumerate(wt):
         key = repr(c["meta"])
         if key not in cache:
             cache[key] = mk_meta(c["meta"])
         md = cache[key]
-        kw = dict(period_start=datetime.date(*c["ps"]), period_end=datetime.date(*c["pe"]),
-                  evaluation_date=datetime.date(*c["ev"]),
+        kw = dict(period_start=_coord(c["ps"], coords, ci), period_end=_coord(c["pe"], coords, ci + 1),
+                  evaluation_date=_coord(c["ev"], coords, ci + 2),
                   values={k: mk_val(v) for k, v in c["values"]}, metadata=md)
         if c["kind"] == "IncrementalCell":
-            out.append(IncrementalCell(prev_evaluation_date=datetime.date(*c["prev"]), **kw))
+            out.append(IncrementalCell(prev_evaluation_date=_coord(c["prev"], coords, ci + 3), **kw))
         elif c["kind"] == "CumulativeCell":
             out.append(CumulativeCell(**kw))
         else:
@@ -206,12 +227,12 @@ def mk_cells(wt):
     return out
 
 
-def mk_triangle(wt):
+def mk_triangle(wt, coords="date"):
     from bermuda import Triangle
 
     with warnings.catch_warnings():
         warnings.simplefilter("ignore")
-        return Triangle(mk_cells(wt))
+        return Triangle(mk_cells(wt, coords))
 
 
 # ====================================================================== implementation runners
@@ -374,10 +395,11 @@ def gen_array(rng):
 
 def gen_cell_value(rng, weights=None):
     r = rng.random()
+    npm = ["np"] if rng.random() < 0.15 else []       # np.int64 / np.float64 scalars (incl. |n| > 2**53)
     if r < 0.30:
-        return ["int", gen_int(rng)]
+        return ["int", gen_int(rng)] + npm
     if r < 0.60:
-        return ["float", gen_float_hex(rng)]
+        return ["float", gen_float_hex(rng)] + npm
     if r < 0.68:
         return ["bool", rng.random() < 0.5]
     if r < 0.76:
@@ -420,7 +442,7 @@ def _month_end(y, m):
     return [y, m, calendar.monthrange(y, m)[1]]
 
 
-def gen_triangle(rng, max_keys=136, n_slices=None, kind=None, size="small"):
+def gen_triangle(rng, max_keys=136, n_slices=None, kind=None, size="small", restate_p=0.0):
     """A valid wire triangle, already in the library's sorted order (it is built through
     Triangle(...) and canonicalised, so 'wt' is exactly what the library holds)."""
     n_slices = rng.choices([0, 1, 2, 3, 4], [1, 9, 7, 5, 4])[0] if n_slices is None else n_slices
@@ -436,6 +458,9 @@ def gen_triangle(rng, max_keys=136, n_slices=None, kind=None, size="small"):
     metas = []
     for si in range(n_slices):
         m = {a: (gen_string(rng, allow_empty=False) if rng.random() < 0.6 else None) for a in META_STR_ATTRS}
+        for a in META_STR_ATTRS:
+            if rng.random() < 0.06:
+                m[a] = ""                       # falsy but valid: an empty string is not None
         if rng.random() < 0.5:
             m["risk_basis"] = rng.choice(["Accident", "Policy"])
         # slices are told apart by an attribute that Metadata.__lt__ really compares
@@ -458,7 +483,7 @@ def gen_triangle(rng, max_keys=136, n_slices=None, kind=None, size="small"):
 
         m1 = metas[0]
         m2 = _copy.deepcopy(m1)
-        variant = rng.choice(["loss_only", "loss_only", "placement", "attr_named"])
+        variant = rng.choice(["loss_only", "loss_only", "placement", "attr_named", "none_vs_empty"])
         if variant == "loss_only":
             strs = [it for it in m2["loss_details"] if it[1][0] == "str"]
             if strs and rng.random() < 0.5:
@@ -473,9 +498,14 @@ def gen_triangle(rng, max_keys=136, n_slices=None, kind=None, size="small"):
             item = ["coverage_p", rng.choice([["str", "BI"], ["int", 7], ["bool", True], ["date", [2021, 3, 4]]])]
             m1["details"].append(item)
             m2["loss_details"].append(_copy.deepcopy(item))
+        elif variant == "none_vs_empty":
+            a = rng.choice(META_STR_ATTRS)      # None vs "" in one attribute, nothing else differs
+            m1[a] = None
+            m2 = _copy.deepcopy(m1)
+            m2[a] = ""
         else:
             a = rng.choice(["country", "currency", "reinsurance_basis", "loss_definition"])
-            val = m1[a] if m1[a] is not None else "US"
+            val = m1[a] if m1[a] else "US"
             m1[a] = val
             m2 = _copy.deepcopy(m1)
             m2[a] = None
@@ -494,6 +524,8 @@ def gen_triangle(rng, max_keys=136, n_slices=None, kind=None, size="small"):
     late_fields = []
     if n_evals >= 2 and field_keys and rng.random() < 0.35:
         late_fields = rng.sample(field_keys, min(len(field_keys), rng.choice([1, 2])))
+    none_field = rng.choice(field_keys) if field_keys and rng.random() < 0.1 else None   # all-None field
+    step = 2 if (not semi and rng.random() < 0.15) else 1     # gaps: no two periods adjacent
     cells = []
     for m in metas:
         for pi in range(n_periods):
@@ -504,7 +536,7 @@ def gen_triangle(rng, max_keys=136, n_slices=None, kind=None, size="small"):
                     continue
                 ps, pe = ([py, pm, 1], [py, pm, 15]) if pi % 2 == 0 else ([py, pm, 16], _month_end(py, pm))
             else:
-                py, pm = _add_months(y0, m0, pi * res_months)
+                py, pm = _add_months(y0, m0, pi * res_months * step)
                 ey, em = _add_months(py, pm, res_months - 1)
                 if ey > 9998:
                     continue
@@ -527,7 +559,8 @@ def gen_triangle(rng, max_keys=136, n_slices=None, kind=None, size="small"):
                         use += [k for k in late_fields if rng.random() < 0.8]
                 row_started = True
                 rng.shuffle(use)
-                vals = [[k, (gen_array(rng) if (k in late_fields and rng.random() < 0.5) else gen_cell_value(rng))]
+                vals = [[k, (["none"] if k == none_field else
+                             gen_array(rng) if (k in late_fields and rng.random() < 0.5) else gen_cell_value(rng))]
                         for k in use]
                 c = {"kind": kind, "ps": ps, "pe": pe, "ev": ev, "prev": None, "values": vals, "meta": m}
                 if kind == "IncrementalCell":
@@ -540,9 +573,90 @@ def gen_triangle(rng, max_keys=136, n_slices=None, kind=None, size="small"):
                         continue
                     prev_ev = ev
                 cells.append(c)
+    # nested periods: two periods with the SAME period_start, different period_end and a conflicting
+    # evaluation order -- (ps, pe_short, ev_late) must precede (ps, pe_long, ev_early); an ordering by
+    # (period_start, evaluation_date, period_end) would swap them.  Put into every slice.
+    if y0 >= 2 and size != "big" and rng.random() < 0.35:
+        for m in metas:
+            ny = y0 - 1
+            ps = [ny, m0, 1]
+            e1y, e1m = _add_months(ny, m0, 2)
+            e2y, e2m = _add_months(ny, m0, 11)
+            l1y, l1m = _add_months(e1y, e1m, 12)
+            h2y, h2m = _add_months(ny, m0, 6)    # a period sharing its END with the long one (overlapping)
+            for ps, pe, ev in ((ps, _month_end(e1y, e1m), _month_end(l1y, l1m)),
+                               (ps, _month_end(e2y, e2m), _month_end(e2y, e2m)),
+                               ([h2y, h2m, 1], _month_end(e2y, e2m), _month_end(l1y, l1m))):
+                use = [k for k in field_keys if rng.random() < 0.7]
+                c = {"kind": kind, "ps": ps, "pe": pe, "ev": ev, "prev": None,
+                     "values": [[k, gen_cell_value(rng)] for k in use], "meta": m}
+                if kind == "IncrementalCell":
+                    qy, qm = _add_months(ev[0], ev[1], -1)
+                    c["prev"] = _month_end(qy, qm)
+                cells.append(c)
+    # restated cells: the same metadata and coordinates twice with different values (accepted with a warning)
+    if cells and rng.random() < restate_p:
+        import copy as _copy
+
+        for _ in range(rng.choice([1, 2])):
+            c = _copy.deepcopy(rng.choice(cells))
+            c["meta"] = next(x["meta"] for x in cells if x["meta"] == c["meta"])
+            c["values"] = [[k, gen_cell_value(rng)] for k in field_keys if rng.random() < 0.7]
+            cells.append(c)
     rng.shuffle(cells)
     tri = mk_triangle(cells)
     return canon_triangle(tri)
+
+
+def has_restated(wt):
+    seen = set()
+    for c in wt:
+        k = repr((norm_cell(c, False)["meta"], c["ps"], c["pe"], c["ev"], c["prev"]))
+        if k in seen:
+            return True
+        seen.add(k)
+    return False
+
+
+_CORNER_DATES = [
+    ([1900, 2, 1], [1900, 2, 28]), ([2000, 2, 1], [2000, 2, 29]), ([2100, 2, 1], [2100, 2, 28]),
+    ([2400, 2, 1], [2400, 2, 29]), ([2023, 2, 1], [2023, 2, 28]), ([2024, 2, 1], [2024, 2, 29]),
+    ([1969, 12, 1], [1969, 12, 31]), ([2020, 4, 1], [2020, 4, 30]), ([2020, 12, 1], [2020, 12, 31]),
+    ([1, 1, 1], [1, 1, 31]), ([9999, 11, 1], [9999, 11, 30]), ([2249, 12, 1], [2249, 12, 31]),
+]
+
+
+def gen_calendar_triangle(rng, n=None, kind=None):
+    """Calendar corners (family C): February ends of 1900/2000/2100/2400, leap and non-leap years,
+    30/31-day months, evaluation on the month end, the day before and the day after, years 1, 1969,
+    2249 and 9999; corner dates also as detail values."""
+    import calendar
+
+    kind = kind or rng.choice(KINDS)
+    m = {a: None for a in META_STR_ATTRS}
+    m.update({"risk_basis": "Accident", "limit": None,
+              "details": [["asof", ["date", [2000, 2, 29]]], ["first", ["date", [1, 1, 1]]]],
+              "loss_details": [["last", ["date", [9999, 12, 31]]], ["feb", ["date", [1900, 2, 28]]]]})
+    cells = []
+    for ps, pe in (rng.sample(_CORNER_DATES, n) if n else _CORNER_DATES):
+        for shift in (0, -1, 1):
+            dd = datetime.date(*pe)
+            try:
+                ev = dd + datetime.timedelta(days=shift)
+            except OverflowError:
+                continue
+            if ev < datetime.date(*ps) or ev >= datetime.date.max:
+                continue
+            c = {"kind": kind, "ps": ps, "pe": pe, "ev": [ev.year, ev.month, ev.day], "prev": None,
+                 "values": [["paid", ["int", shift]], ["d", gen_cell_value(rng)]], "meta": m}
+            if kind == "IncrementalCell":
+                pv = datetime.date(*ps) if datetime.date(*ps) < ev else None
+                if pv is None:
+                    continue
+                c["prev"] = [pv.year, pv.month, pv.day]
+            cells.append(c)
+    rng.shuffle(cells)
+    return canon_triangle(mk_triangle(cells))
 
 
 def gen_collapse_triangle(rng):
@@ -630,6 +744,22 @@ def gen_write_sequence(rng):
                     if kind == "IncrementalCell":
                         c["prev"] = [y, 6, 30] if k == 0 else [y - 1, 12, 31]
                     cells.append(c)
+            if seq and rng.random() < 0.5:
+                # family A across files: an EQUAL metadata spelled differently (other key order, 7 vs 7.0)
+                import copy as _copy
+
+                respelled = {}
+                for c in cells:
+                    key = repr(c["meta"])
+                    if key not in respelled:
+                        m2 = _copy.deepcopy(c["meta"])
+                        for dn in ("details", "loss_details"):
+                            m2[dn] = list(reversed(m2[dn]))
+                            for it in m2[dn]:
+                                if it[1][0] == "int" and abs(it[1][1]) < 2 ** 53:
+                                    it[1] = ["float", struct.pack("<d", float(it[1][1])).hex()]
+                        respelled[key] = m2
+                    c["meta"] = respelled[key]
             seq.append(canon_triangle(mk_triangle(cells)))
         pools = [all_keys_sorted(wt) for wt in seq]
         if any(pools[0].index(k) != pools[j].index(k) for j in range(1, len(seq)) for k in dkeys):
@@ -779,6 +909,23 @@ def path_reuse_oracle(wt_a, wt_b, scratch, compress=False, cuts=None):
         r = load()
         if r[0] != "ok" or not wt_equal(r[1], wt_a):
             return ("a freshly saved file does not load back as saved", {"step": "load_a", "flavour": flav})
+        # the caller edits the result it was given; a second load must not see the edit
+        try:
+            with _w.catch_warnings():
+                _w.simplefilter("ignore")
+                got = Triangle.from_binary(path)
+            for cl in got.cells:
+                cl.values["__edited__"] = 1
+                cl.metadata.details["__edited__"] = "x"
+                for v in cl.values.values():
+                    if isinstance(v, np.ndarray) and v.size and v.flags.writeable:
+                        v.flat[0] = 0
+        except Exception:  # noqa: BLE001 - an immutable result is fine
+            pass
+        r = load()
+        if r[0] != "ok" or not wt_equal(r[1], wt_a):
+            return ("loading the same path again after the caller edited the first result returns the edited data",
+                    {"step": "load_after_edit", "flavour": flav})
         b_bytes = impl_write(tri_b, scratch, compress=compress)
         ns = list(range(len(b_bytes))) if cuts is None else [n for n in cuts if n < len(b_bytes)]
         for n in ns:
@@ -826,6 +973,122 @@ def replay_reuse(data, scratch):
         return 0
     print("PROPERTY FAILS:", bad[0], bad[1])
     return 1
+
+
+def coords_oracle(wt, scratch):
+    """Family D: coordinates given as datetime.datetime / pandas.Timestamp / a datetime subclass with a
+    non-midnight time (all three cell classes; prev_evaluation_date included).  The triangle must hold plain dates and write the same file."""
+    if not wt:
+        return None
+    try:
+        tri = mk_triangle(wt, coords="mixed")
+    except Exception as ex:  # noqa: BLE001
+        return (f"cells with datetime/Timestamp coordinates are refused: {type(ex).__name__}", {"check": "coords"})
+    if not wt_equal(canon_triangle(tri), wt, ordered=True):
+        return ("cells built from datetime/Timestamp coordinates do not hold the plain dates: "
+                + first_diff(canon_triangle(tri), wt, True), {"check": "coords"})
+    w = safe_write(tri, scratch)
+    if w[0] != "ok":
+        return (f"to_binary raised {w[1]} for cells built from datetime/Timestamp coordinates", {"check": "coords"})
+    if w[1] != ref_encode(wt):
+        return ("cells built from datetime/Timestamp coordinates are written differently", {"check": "coords"})
+    r = impl_read(w[1], scratch)
+    if r[0] != "ok" or not wt_equal(r[1], wt):
+        return ("cells built from datetime/Timestamp coordinates do not round-trip", {"check": "coords"})
+    return None
+
+
+def odd_extension_oracle(wt, scratch):
+    """An EXPLICIT compress argument (True or False) is honoured on both sides whatever the extension:
+    write with compress=c to an unconventional / the 'wrong' conventional extension, read with compress=c."""
+    from bermuda import Triangle
+
+    tri = mk_triangle(wt)
+    for compress, ext in ((False, ".dat"), (False, ".tribc"), (True, ".bin"), (True, ".trib"), (False, "")):
+        p = scratch.path(ext)
+        det = {"check": "odd_ext", "ext": ext, "compress": compress}
+        try:
+            with warnings.catch_warnings():
+                warnings.simplefilter("ignore")
+                tri.to_binary(p, compress=compress)
+                t2 = Triangle.from_binary(p, compress=compress)
+        except Exception as ex:  # noqa: BLE001
+            return (f"explicit compress={compress} with extension '{ext}': write+read raised {type(ex).__name__}", det)
+        finally:
+            try:
+                os.unlink(p)
+            except OSError:
+                pass
+        if not wt_equal(canon_triangle(t2), wt):
+            return (f"explicit compress={compress} with extension '{ext}': the triangle read back differs: "
+                    + first_diff(canon_triangle(t2), wt), det)
+    return None
+
+
+def boundary_oracle(scratch):
+    """Families G / L: refusals still refuse (never a silent change), valid inputs at the boundary are
+    not refused.  Returns a list of (what, detail)."""
+    import datetime as _dt
+
+    from bermuda import Cell, Metadata, Triangle
+
+    out = []
+    d = _dt.date
+
+    def tri_of(vals, meta=None):
+        with warnings.catch_warnings():
+            warnings.simplefilter("ignore")
+            return Triangle([Cell(d(2020, 1, 1), d(2020, 12, 31), d(2020, 12, 31), vals, meta or Metadata()),
+                             Cell(d(2021, 1, 1), d(2021, 12, 31), d(2021, 12, 31), {"x": 1}, meta or Metadata())])
+
+    # arrays that are not int64/float64: refuse, or keep them exactly -- never a silent conversion
+    for dt in ("float32", "int32", "int16", "bool", "uint8"):
+        arr = np.arange(6).reshape(2, 3).astype(dt)
+        try:
+            tri = tri_of({"a": arr, "x": 2})
+        except Exception:  # noqa: BLE001 - refused at construction: fine
+            continue
+        for compress in (False, True):
+            w = safe_write(tri, scratch, compress=compress)
+            if w[0] != "ok":
+                continue
+            r = impl_read(w[1], scratch, compress=compress)
+            if r[0] != "ok" or not wt_equal(r[1], canon_triangle(tri)):
+                out.append((f"a {dt} array is neither refused by to_binary nor read back as it was (silent change)",
+                            {"boundary": f"dtype:{dt}", "flavour": "tribc" if compress else "trib"}))
+    # strings at the documented limit (32767 UTF-8 bytes) are valid
+    for name, sval in (("ascii", "a" * 32767), ("utf8", "\u4e2d" * 10922), ("empty", "")):
+        tri = tri_of({"x": 0}, Metadata(country=sval if name != "utf8" else None, details={"k" + name: sval}))
+        wt = canon_triangle(tri)
+        w = safe_write(tri, scratch)
+        r = impl_read(w[1], scratch) if w[0] == "ok" else ("err", w[1])
+        if r[0] != "ok" or not wt_equal(r[1], wt):
+            out.append((f"a string of {len(sval.encode())} UTF-8 bytes (documented limit 32767) does not round-trip: "
+                        + (r[1] if r[0] == "err" else "changed"), {"boundary": f"string:{name}"}))
+    # extension inference: an unknown extension cannot be inferred (ValueError); explicit compress=True reads it
+    tri = tri_of({"x": 1.5})
+    comp = impl_write(tri, scratch, compress=True)
+    p = scratch.path(".dat")
+    Path(p).write_bytes(comp)
+    try:
+        with warnings.catch_warnings():
+            warnings.simplefilter("ignore")
+            try:
+                Triangle.from_binary(p)
+                out.append(("a file with an unknown extension was read without an explicit compress argument",
+                            {"boundary": "ext:infer"}))
+            except ValueError:
+                pass
+            t2 = Triangle.from_binary(p, compress=True)
+        if not wt_equal(canon_triangle(t2), canon_triangle(tri)):
+            out.append(("explicit compress=True on an unconventional extension reads a different triangle",
+                        {"boundary": "ext:explicit"}))
+    except Exception as ex:  # noqa: BLE001
+        out.append((f"explicit compress=True on an unconventional extension raised {type(ex).__name__}",
+                    {"boundary": "ext:explicit"}))
+    finally:
+        os.unlink(p)
+    return out
 
 
 def safe_write(tri, scratch, compress=False):
